@@ -758,6 +758,45 @@ def go_check(ctx, args, marker, viol_marker, what):
     return stats
 
 
+def sexp_model(ctx):
+    """Sexp.tla: the s-expression reader and the key-file importer/exporter as functions on character
+    sequences; TLC checks progress and the export/import round trip and writes (input, result) vectors
+    for every string over the reader's special characters and for token mutations of a key file; the
+    real reader and ImportKeys must give exactly those results."""
+    import shutil
+    q = ctx.quick()
+    d = os.path.join(ctx.work, "sexp")
+    os.makedirs(d, exist_ok=True)
+    shutil.copy(os.path.join(vlib.SPEC, "Sexp.tla"), d)
+    vec = os.path.join(d, "vec.ndjson")
+    open(os.path.join(d, "Sexp.cfg"), "w").write("""SPECIFICATION Spec
+CONSTANTS
+  Letters = {"a", "1", "g"%s}
+  MaxLen = %d
+  NameLen = %d
+  MaxMut = %d
+  Export = TRUE
+  OutFile = "%s"
+CHECK_DEADLOCK FALSE
+""" % ("" if q else ', "0", "-"', 4 if q else 5, 1 if q else 2, 1 if q else 2, vec))
+    rc, out = vlib.run_tlc(d, module="Sexp", workers=1, timeout=3000, heap="6g")
+    gen, dist, err = vlib.tlc_stats(out)
+    if rc != 0 or err or not os.path.exists(vec):
+        raise Broken("Sexp.tla: rc=%s %s" % (rc, err))
+    st = go_check(ctx, ["sexpcheck", "-vectors", vec], "SEXPCHECK", "SEXPVIOLATION",
+                  "the s-expression reader or the key-file importer differs from Sexp.tla")
+    if not st.get("vectors"):
+        raise Broken("sexpcheck ran no vectors")
+    ctx.model_runs.append(dict(name="Sexp.tla", states=dist, transitions=gen, vectors=st.get("vectors", 0),
+                               theorems=["ReaderProgress", "RoundTripFile", "RoundTripEmpty", "ImportProgress"]))
+    ctx.states += max(dist, 1)
+    ctx.transitions += max(gen, 1)
+    ctx.traces_validated += st.get("vectors", 0)
+    ctx.events += st.get("vectors", 0)
+    ctx.schedules += st.get("vectors", 0)
+    ctx.extra_cov["sexp"] = st
+
+
 def c17(ctx):
     """Codec.tla: the wire encoding on byte sequences with its round-trip theorems (checked by TLC as
     ASSUMEs over all small values); the (value, bytes) vectors TLC prints are run through the real
@@ -798,6 +837,7 @@ CHECK_DEADLOCK FALSE
     ctx.schedules += st.get("vectors", 0) + st.get("generated", 0)
     ctx.samples.append(dict(vector=open(vec).readline().strip()[:300]))
     ctx.extra_cov["codec"] = st
+    sexp_model(ctx)
     # inside real sessions: every message of SMP / extra-key / data runs is parsed by the independent
     # codec and must give the record the specification computes
     ctx.random_validate("smp", 8 if q else 80, 3)
@@ -832,6 +872,7 @@ def c13(ctx):
                   "a parser entry point panicked, hung or allocated out of proportion")
     ctx.events += st.get("inputs", 0)
     ctx.extra_cov["parser_inputs"] = st.get("inputs", 0)
+    sexp_model(ctx)
 
 
 def c20(ctx):
